@@ -4,42 +4,6 @@ From Coq Require Import Lia.
 Open Scope N_scope.
 
 (* ------------------------------------------------------------------ *)
-(* trigger_event in terms of the specification-side [responsible]     *)
-(* ------------------------------------------------------------------ *)
-Definition unhandled_method (ev : pv) : list eff * Res (option pv) :=
-  match ev with
-  | PStr _ => ([], Ok (Some PNone))
-  | _ => if truthy ev then ([], Err TypeError) else ([], Ok (Some PNone))
-  end.
-
-Lemma te_pure_responsible c ev ns args :
-  is_unhashable ev = false ->
-  te_pure c ev ns args =
-  match responsible c ev ns args with
-  | None => ([], Ok None)
-  | Some (Some h, a) => some_res (cwr_pure c ev h a)
-  | Some (None, a) => unhandled_method ev
-  end.
-Proof.
-  intro Hh. unfold te_pure, responsible, unhandled_method. rewrite Hh.
-  destruct (get_event_handler c ev ns args) as [[h a]|]; [reflexivity|].
-  destruct (get_namespace_handler c ns args) as [[methods a]|]; [|reflexivity].
-  destruct ev; reflexivity.
-Qed.
-
-Lemma reserved_not_disconnect ev : reserved ev = false -> is_disconnect ev = false.
-Proof.
-  unfold reserved, is_disconnect. destruct ev; try reflexivity.
-  intro H. apply orb_false_iff in H as [_ H]. cbn [pv_eqb]. exact H.
-Qed.
-
-Lemma cwr_pure_plain c ev h a : is_disconnect ev = false -> cwr_pure c ev h a = ch_pure c h a.
-Proof.
-  intro H. unfold cwr_pure. rewrite H.
-  destruct (ch_pure c h a) as [e1 [v|x]]; [reflexivity|]. destruct x; reflexivity.
-Qed.
-
-(* ------------------------------------------------------------------ *)
 (* handle_event as a pure function of the state                       *)
 (* ------------------------------------------------------------------ *)
 Definition ack_effs (c : cfg) (s : srv) (eio ns : str) (id : option Z) (v : pv) : list eff :=
